@@ -1,6 +1,6 @@
 (* C07 — non-vacuity examples *)
 From Coq Require Import ZArith List Lia Permutation.
-From FV Require Import Lib.RustInt C05.Model C05.Proofs C05.Examples C07.Proofs C07.Equiv.
+From FV Require Import Lib.RustInt C05.Model C05.Proofs C05.Examples C07.Proofs C07.Equiv C07.PromoteModel C07.Promote.
 Import ListNotations.
 Open Scope Z_scope.
 
@@ -52,3 +52,23 @@ Example c07_incr_nonvacuous :
   map (fun i => 1000 + Z.of_nat i) [2; 5; 6; 40]%nat = [1002; 1005; 1006; 1040] /\
   (forall a b, a < b -> (fun x => 3 * x + 7) a < (fun x => 3 * x + 7) b).
 Proof. repeat split; cbn [incr incr_nat id_stream map seq]; try lia; try reflexivity; intros; lia. Qed.
+
+(* ---- round 3: promotion choice ---- *)
+(* five lookups, one small with a better score and four equal-score ones of 24 000 bytes: the cut-off falls
+   inside the tied group; lookups 5 and 9 (the two tied ones with the largest ids) are promoted *)
+Definition ex_lookups : list lookup :=
+  [mkLk 9 41666 1 24000 8 12000; mkLk 2 41666 1 24000 8 12000; mkLk 4 500000 1 2000 8 1000;
+   mkLk 5 41666 1 24000 8 12000; mkLk 3 41666 1 24000 8 12000].
+Example c07_promotion_example :
+  promote 12 ex_lookups = Some [5; 9] /\
+  promote 12 (rev ex_lookups) = Some [5; 9] /\ Permutation ex_lookups (rev ex_lookups) /\ NoDup (map lk_id ex_lookups) /\
+  promote 12 (map (ren (fun i => 3 * i + 100)) ex_lookups) = Some [115; 127] /\
+  map lk_id (sort_by_key (btree_order ex_lookups)) = [4; 2; 3; 5; 9] /\
+  (* delivered in another order (no canonical enumeration) other lookups are promoted *)
+  promote_perm (@rev lookup) 12 ex_lookups = Some [3; 2] /\
+  check_pcase (PCase 12 ex_lookups [5; 9]) = true /\ check_pcase (PCase 12 ex_lookups [2; 3]) = false.
+Proof.
+  repeat split; try (vm_compute; reflexivity).
+  - apply Permutation_rev.
+  - cbn. repeat constructor; cbn; intuition lia.
+Qed.
